@@ -25,7 +25,7 @@ Is(name) == l <= NLines /\ Ev.e = name /\ l' = l + 1
 MethOf(m) == IF m.k = "none" THEN [k |-> "none"] ELSE [k |-> "set", s |-> SeqToSet(m.s)]
 OptOf(o) == IF o.t = "h" THEN [t |-> "h", id |-> o.id, pat |-> o.pat, meth |-> MethOf(o.meth), sel |-> o.sel]
             ELSE [t |-> "m", child |-> o.child, pat |-> o.pat, sel |-> o.sel]
-NodeOf(n) == [parent |-> n.parent, mname |-> n.mname, mt |-> n.mt,
+NodeOf(n) == [parent |-> n.parent, mparent |-> n.mparent, mroot |-> n.mroot, helpers |-> n.helpers, mname |-> n.mname, mt |-> n.mt,
               opts |-> [i \in 1..Len(n.opts) |-> OptOf(n.opts[i])], keys |-> n.keys]
 
 Observed == IF Ev.hits = <<>> THEN NotFound
@@ -59,18 +59,21 @@ Intended(node, s, tapp, tid, want, m) ==
 MapOK ==
     LET nk == Len(Ev.kwn)
         pos == SubSeq(Ev.params, nk + 1, Len(Ev.params))
-        hv == [i \in 1..nk |-> [n |-> Ev.kwn[i], v |-> Ev.params[i]]] \o helpers
+        hv == [i \in 1..nk |-> [n |-> Ev.kwn[i], v |-> Ev.params[i]]] \o cfg[RootOf(cfg, Ev.app)].helpers   \* defaults: top of the caller's mapper hierarchy
         u == IF nk > Len(Ev.params) THEN NoUrl ELSE MapUrlH(cfg, Ev.app, Ev.abs, Ev.comps, pos, hv)
     IN /\ Ev.ok = u.ok
        /\ u.ok =>
-            /\ Ev.url = prefix \o u.url
-            /\ RouteOK(Ev.m, u.url)
-            /\ (Ev.tapp # 0 /\ ~RouteAmbiguous(cfg, 1, Ev.m, u.url)) =>
+            LET full == cfg[RootOf(cfg, u.node)].mroot \o u.url            \* the mapper top prepends its root string
+                rp == SubSeq(full, Len(prefix) + 1, Len(full))              \* path info seen by the root application
+            IN
+            /\ Ev.url = full
+            /\ RouteOK(Ev.m, rp)
+            /\ (Ev.tapp # 0 /\ ~RouteAmbiguous(cfg, 1, Ev.m, rp)) =>
                   /\ u.node = Ev.tapp
                   /\ (Ev.tid # 0 =>
                         LET h == CHOOSE o \in { cfg[Ev.tapp].opts[i] : i \in 1..Len(cfg[Ev.tapp].opts) } : o.t = "h" /\ o.id = Ev.tid
                             want == Sel(<<>>, Ev.full, h.sel)
-                            w == Intended(1, u.url, Ev.tapp, Ev.tid, want, Ev.m)
+                            w == Intended(1, rp, Ev.tapp, Ev.tid, want, Ev.m)
                         IN /\ w \in {"reached", "shadowed"}
                            /\ (w = "reached" => Observed = [hit |-> TRUE, app |-> Ev.tapp, id |-> Ev.tid, args |-> want]))
 
